@@ -124,7 +124,7 @@ MUTANTS = [
     dict(id='C35-m1', file='pony/orm/core.py', fn='EntityMeta._find_in_cache_', old='                return None, unique  # object is found, but it is not locked',
          new="                if obj._status_ not in ('inserted', 'updated'):\n                    return None, unique\n                cache.for_update.add(obj)", expect='C35-LOCKSET'),
     dict(id='C35-m2', file='pony/orm/core.py', fn='EntityMeta._find_in_cache_', old='            if for_update and obj not in cache.for_update:\n                return None, unique  # object is found, but it is not locked\n', new='', expect='C35-RELOCK'),
-    dict(id='C35-m3', file='pony/orm/core.py', fn='EntityMeta._find_in_db_', old='        if for_update: database._get_cache().immediate = True\n', new='', expect='C35-BEGIN'),
+    dict(id='C35-m3', file='pony/orm/core.py', fn='EntityMeta._find_in_db_', old='        if for_update: cache.immediate = True\n', new='', expect='C35-BEGIN'),
     dict(id='C35-m4', file='pony/orm/core.py', fn='Query._actual_fetch', old='            if query._for_update: cache.immediate = True\n', new='', expect='C35-BEGIN'),
     dict(id='C35-m5', file='pony/orm/sqlbuilding.py', fn='SQLBuilder.SELECT_FOR_UPDATE', old="        return result, 'FOR UPDATE', nowait, skip_locked, '\\n'", new="        return result, '\\n'", expect='C35-SQL.builder'),
     dict(id='C35-m6', file='pony/orm/core.py', fn='SessionCache.flush', old='                cache.max_id_cache.clear()\n', new='                cache.max_id_cache.clear()\n                cache.for_update.update(o for o, s in cache.saved_objects)\n', expect='C35-LOCKSET'),
